@@ -191,6 +191,9 @@ func c09Inputs(r *core.Run, i int) []byte {
 		b.Write(d.Render())
 		if rr.Bool() {
 			b.WriteString("trailer line\n" + strings.Repeat("t", 16384+rr.Intn(5)-2) + "\nend")
+		} else if rr.Bool() {
+			// the line that ends the dump is the last of the stream, unterminated, as long as the read buffer +/- 1
+			b.WriteString(d.F.Indent + strings.Repeat("t", 16384-len(d.F.Indent)+rr.Intn(3)-1))
 		}
 		return b.Bytes()
 	case 1: // dump end straddling a refill: pad so that the dump's last line crosses 16384*k
